@@ -205,6 +205,12 @@ func vh_C03_flow_single() {
 			verifAssert("C03.refused-sets-no-session-cookie", c.Name != "_oauth2_proxy")
 		}
 	}
+	// whatever page the callback renders, the link it offers ("go back", rd of the retry form) is
+	// what the redirect director says for this request (validated there: C06.chain) or a validated
+	// target -- never the redirect half of a state that has not passed the checks
+	if f.pages.errPages >= 1 {
+		verifAssert("C06.callback.error-page-link-from-the-director", f.pages.errRd == "" || f.pages.errRd == "/" || f.pages.errRd == l.rd || f.p.redirectValidator.IsValidRedirect(f.pages.errRd))
+	}
 	// converse: the unmodified state and cookie of one login always pass the CSRF stage (the code
 	// is redeemed); if everything after that is in order there is a session
 	if ownState && cookieKind == 0 {
